@@ -98,6 +98,11 @@ class C10(Check):
 
         cfg = Configuration.create(rmin=0.01, rmax=0.5, unit="deg", edges=edges.tolist(), closed=closed)
         counters = {}
+        # a quarter of the cases runs the consumers on two worker processes (binning objects are pickled)
+        nw = 2 if case["seed"] % 4 == 0 else 1
+        import os
+
+        os.environ["YAW_NUM_THREADS"] = str(nw)
         with Scratch("c10") as tmp:
             cobj = cats.coords_obj(centres)
             ref = cats.create(tmp / "ref", cats.table(ra, dec, w=w, z=z), centers=cobj)
@@ -113,7 +118,7 @@ class C10(Check):
             # consumer 1: trees
             got_tree_w = np.full((nb, P), np.nan)
             try:
-                ref.build_trees(edges, closed=closed, max_workers=1)
+                ref.build_trees(edges, closed=closed, max_workers=nw)
                 got_tree_n = np.zeros((nb, P), dtype=int)
                 for p in ref:
                     trees = BinnedTrees(ref[p]).trees
@@ -143,7 +148,7 @@ class C10(Check):
                     return cats.create(tmp / name, cats.table(a, d), centers=cobj)
 
                 unk, ur = aux("unk", 10), aux("ur", 12)
-                cf = yaw.crosscorrelate(cfg, ref, unk, unk_rand=ur, max_workers=1)[0]
+                cf = yaw.crosscorrelate(cfg, ref, unk, unk_rand=ur, max_workers=nw)[0]
                 got_meas = cf.dd.sum_weights.sum_weights1
                 counters["measurement_cells"] = nb * P
                 if not (got_meas.shape == want_w.shape and np.allclose(got_meas, want_w, rtol=1e-12, atol=0)):
@@ -153,10 +158,37 @@ class C10(Check):
             except Exception as e:
                 bad(f"measurement:raises-{type(e).__name__}:{case['empty']}", dict(error=str(e)[:200]))
 
+            # consumer 2b: autocorrelation (both trees binned; the random sample leaves bins empty in some patches)
+            try:
+                x, _ = cats.points_around(rng, centres, 8, r)
+                x = np.concatenate([x, centres])
+                a, d = gen.xyz_to_radec(x)
+                zr = lattice(rng, edges, len(a))[: len(a)]
+                if len(zr) < len(a):
+                    zr = np.concatenate([zr, rng.choice(zr, len(a) - len(zr))])
+                pid_r, _m = cats.nearest_centre(x, centres)
+                if nb > 1:
+                    zr[(pid_r == 0) & (zr >= edges[0]) & (zr <= edges[1])] = edges[-1] + 1.0  # first bin empty in patch 0
+                rnd = cats.create(tmp / "rnd", cats.table(a, d, z=zr), centers=cobj)
+                rrec = cats.records(rnd)
+                rmem = bin_members(rrec["z"], edges, closed)
+                want_r = np.array([[float((m & (rrec["pid"] == p)).sum()) for p in range(P)] for m in rmem])
+                acf = yaw.autocorrelate(cfg, ref, rnd, count_rr=True, max_workers=nw)[0]
+                counters["measurement_cells"] = counters.get("measurement_cells", 0) + 3 * nb * P
+                for nm, got, want in (("dd.sum_weights1", acf.dd.sum_weights.sum_weights1, want_w),
+                                      ("dr.sum_weights1", acf.dr.sum_weights.sum_weights1, want_w),
+                                      ("dr.sum_weights2", acf.dr.sum_weights.sum_weights2, want_r),
+                                      ("rr.sum_weights1", acf.rr.sum_weights.sum_weights1, want_r)):
+                    if not (got.shape == want.shape and np.allclose(got, want, rtol=1e-12, atol=0)):
+                        bad(f"measurement:auto:{nm}-wrong:{closed}", dict(got=np.asarray(got).tolist(), want=want.tolist()))
+                        break
+            except Exception as e:
+                bad(f"measurement:auto:raises-{type(e).__name__}:{case['empty']}", dict(error=str(e)[:200]))
+
             # consumer 3: histogram
             got_hist = None
             try:
-                h = HistData.from_catalog(ref, cfg, max_workers=1)
+                h = HistData.from_catalog(ref, cfg, max_workers=nw)
                 counters["hist_cells"] = nb * P
                 if not np.allclose(h.data, want_w.sum(axis=1), rtol=1e-12, atol=0):
                     inner = bool(on_inner)
@@ -175,7 +207,8 @@ class C10(Check):
             if got_hist is not None and got_meas is not None and not np.allclose(got_hist.sum(axis=1), np.asarray(got_meas).sum(axis=1), rtol=1e-9, atol=1e-9):
                 bad(f"consumers-disagree:hist-vs-measurement:{closed}", dict(hist=got_hist.sum(axis=1).tolist(), meas=np.asarray(got_meas).sum(axis=1).tolist()))
 
-        out.append(result(HELD, cls=f"{case['edges']}/{closed}/{case['empty']}", counters=counters,
+        os.environ["YAW_NUM_THREADS"] = "1"
+        out.append(result(HELD, cls=f"{case['edges']}/{closed}/{case['empty']}/w{nw}", counters=counters,
                           nontrivial=(on_inner > 0 or nb == 1) and on_outer > 0 or case["empty"] == "all_outside",
                           sample=dict(case=case, bins=nb, patches=P, n=n, on_inner_edge=on_inner, on_outer_edge=on_outer)))
         return out
